@@ -122,7 +122,14 @@ Definition lease_mismatch (s : dstate) (m : dmsg) : bool :=
   end.
 Definition outside_subnet (c : cfg) (s : dstate) (m : dmsg) : bool :=
   negb (n_contains c (client_net c s m) (asked m)).
-Definition cannot_honour (c : cfg) (s : dstate) (m : dmsg) : bool :=
-  other_server c m || lease_unknown s m || lease_mismatch s m || outside_subnet c s m.
-Definition c12_no_ack_when (c : cfg) (s : dstate) (m : dmsg) (r : option reply) : bool :=
-  negb (cannot_honour c s m) || match r with Some r => negb (is_ack r) | None => true end.
+(* the client's lease is expired: its expiry lies before the instant the request is handled,
+   whether or not MinuteTicker has freed it yet *)
+Definition lease_expired (s : dstate) (m : dmsg) (now : Z) : bool :=
+  match tget (getcid m) (tbl s) with
+  | Some l => lstate_eqb (l_state l) SAllocated && (l_exp l <? now)%Z
+  | None => false
+  end.
+Definition cannot_honour (c : cfg) (s : dstate) (m : dmsg) (now : Z) : bool :=
+  other_server c m || lease_unknown s m || lease_expired s m now || lease_mismatch s m || outside_subnet c s m.
+Definition c12_no_ack_when (c : cfg) (s : dstate) (m : dmsg) (now : Z) (r : option reply) : bool :=
+  negb (cannot_honour c s m now) || match r with Some r => negb (is_ack r) | None => true end.
